@@ -761,6 +761,12 @@ func wireChild(a wireArg) (*wireResult, error) {
 				if err != nil {
 					return nil, err
 				}
+				for attempt := 0; st.In == "findnode-bonded" && reply != st.Reply && attempt < 2; attempt++ {
+					time.Sleep(2 * time.Second) // bonding queues behind earlier time-outs (see control)
+					if reply, err = s.datagram(r, st.In); err != nil {
+						return nil, err
+					}
+				}
 				res.Replies[st.In+"->"+reply]++
 				if reply != st.Reply {
 					res.Mismatches = append(res.Mismatches, [2]string{"datagram-" + st.In + "-answered-" + reply + "-specified-" + st.Reply,
